@@ -965,6 +965,20 @@ def expand_includes(text, include_root, depth=0):
 def build_unit(template_path, repo, canary=False, include_root=None):
     include_root = include_root or os.path.dirname(os.path.dirname(os.path.dirname(os.path.abspath(template_path))))
     text = expand_includes(open(template_path, encoding='utf-8').read(), include_root)
+    # prelude canaries: text between `//@canary-begin` and `//@canary-end` exists only in the canary build; the
+    # functions in it (named `*__canary`, `ensures false`) must FAIL to verify (axiom-consistency check)
+    keep, out_l = True, []
+    for ln in text.split('\n'):
+        st = ln.strip()
+        if st == '//@canary-begin':
+            keep = canary
+            continue
+        if st == '//@canary-end':
+            keep = True
+            continue
+        if keep:
+            out_l.append(ln)
+    text = '\n'.join(out_l)
     items = parse_template(text)
     out_lines = []      # (text_line, src_file, src_line)
     infos = []
